@@ -175,6 +175,41 @@ async def s_graceful_queued(app, start, pids, created):
     return {'pids': seen + pids(), 'pools_at_begin': n, 'fails': fails}
 
 
+async def s_double_signal(app, start, pids, created):
+    """two signals in a row, before the loop has run the first one's callback (ctrl+c pressed twice): the second one means
+    'immediately' - the running diff is killed, not waited for"""
+    import time
+    import tornado.ioloop
+    loop = tornado.ioloop.IOLoop.current()
+    stopped = []
+    real_stop = loop.stop
+    loop.stop = lambda: stopped.append(time.time())          # handle_signal stops the loop when shutdown is done: record it instead
+    try:
+        t = start(4.0)
+        await asyncio.sleep(0.4)
+        seen = pids()
+        n = len(created)
+        t0 = time.time()
+        app.handle_signal(signal.SIGINT, None)
+        app.handle_signal(signal.SIGINT, None)
+        for _ in range(120):
+            if stopped:
+                break
+            await asyncio.sleep(0.05)
+        elapsed = time.time() - t0
+        r = await result_of(t, 6)
+    finally:
+        loop.stop = real_stop
+    fails = []
+    if not stopped:
+        fails.append('shutdown had not completed 6 s after two signals')
+    elif elapsed > 2.5:
+        fails.append('the second signal did not make the shutdown immediate: it took %.1f s (the running 4 s diff was waited for)' % elapsed)
+    if r[0] == 'ok':
+        fails.append('the diff that was running when the second signal arrived finished normally instead of being killed')
+    return {'pids': seen + pids(), 'pools_at_begin': n, 'fails': fails}
+
+
 async def s_immediate_busy(app, start, pids, created):
     t = start(5)
     await asyncio.sleep(0.3)
@@ -347,7 +382,7 @@ def watchdog(name, seconds=120):
 
 def main():
     scenarios = [('idle, graceful', s_idle), ('busy, graceful', s_graceful_busy), ('queued, graceful', s_graceful_queued), ('busy, immediate', s_immediate_busy),
-                 ('busy, graceful then immediate', s_escalate), ('before any pool exists', s_before_pool),
+                 ('busy, graceful then immediate', s_escalate), ('busy, two signals back to back', s_double_signal), ('before any pool exists', s_before_pool),
                  ('worker killed, then graceful', s_broken_then_shutdown), ('server signal handlers, worker killed, then graceful', s_broken_then_shutdown),
                  ('server signal handlers, busy, immediate', s_immediate_busy)]
     ok = True
